@@ -209,3 +209,33 @@ total!(c02_ipaddr, std::net::IpAddr, 10, [0x82], 6);
 // @harness name=c02_ipv6 props=C02 kind=complete features=std
 #[cfg(feature = "std")]
 total!(c02_ipv6, std::net::Ipv6Addr, 20, [], 18);
+
+// Kani mirror of the Verus contract of `datatype()` / `type_of` (counterexample provider): the data-model type table of
+// RFC 8949 incl. the "narrowest signed type" rule, for every initial byte and every first argument byte.
+// @harness name=c04_datatype_table props=C04,C05,C11,C01 kind=complete
+#[kani::proof]
+fn c04_datatype_table() {
+    use crate::data::Type;
+    let b: u8 = kani::any(); let nx: u8 = kani::any();
+    let buf = [b, nx];
+    let d = Decoder::new(&buf);
+    let want = match b {
+        0x00 ..= 0x18 => Type::U8, 0x19 => Type::U16, 0x1a => Type::U32, 0x1b => Type::U64,
+        0x20 ..= 0x37 => Type::I8,
+        0x38 => if nx < 0x80 { Type::I8 } else { Type::I16 },
+        0x39 => if nx < 0x80 { Type::I16 } else { Type::I32 },
+        0x3a => if nx < 0x80 { Type::I32 } else { Type::I64 },
+        0x3b => if nx < 0x80 { Type::I64 } else { Type::Int },
+        0x40 ..= 0x5b => Type::Bytes, 0x5f => Type::BytesIndef,
+        0x60 ..= 0x7b => Type::String, 0x7f => Type::StringIndef,
+        0x80 ..= 0x9b => Type::Array, 0x9f => Type::ArrayIndef,
+        0xa0 ..= 0xbb => Type::Map, 0xbf => Type::MapIndef,
+        0xc0 ..= 0xdb => Type::Tag,
+        0xe0 ..= 0xf3 | 0xf8 => Type::Simple,
+        0xf4 | 0xf5 => Type::Bool, 0xf6 => Type::Null, 0xf7 => Type::Undefined,
+        0xf9 => Type::F16, 0xfa => Type::F32, 0xfb => Type::F64, 0xff => Type::Break,
+        n => Type::Unknown(n),
+    };
+    match d.datatype() { Ok(t) => assert!(t == want, "datatype() disagrees with the RFC 8949 type table"), Err(_) => assert!(false) }
+    kani::cover!(b == 0x3b && nx == 0x80);
+}
